@@ -407,10 +407,11 @@ def run(ctx):
     ]
     ok = ctx.obligations("CMacVerif.Props.C10", ["drv_c10", "drv_c04"])
     ctx.cov["tolerance"] = {"relative_per_face": TOL_PER_FACE, "cap": TOL_CAP}
+    ctx.assumptions.append("traced runs serialise the release of the children of a finished task (hook mutex); the untraced stress stream (no CMAC_VERIF_TRACE, H1 yield hook with seeded delays, bias between a thread's pre_decrement and its next load) is a search for schedule dependence, not a proof: it compares the final Gadget snapshot written by the code after ~10-20 steps on 4/8/16 threads with the one-thread run")
     ctx.cov["rule"] = ("for a random global grid (layout 1..3 subgrids/axis x 2..6 cells, periodic / reflective / mixed, smooth / jump / blast / near-vacuum / random states): one real step with "
                        "the layout on 2/4/8 threads, with the undivided 1x1x1 layout on one thread (sequential sweep), with another factorisation of the same grid, with another thread count, and twice with one thread; "
                        "full state dumps (conserved + primitive variables of every cell, cells identified by their midpoints) compared: layouts and thread counts within 1e-13 x faces, the two one-thread runs bit for bit; "
-                       "the per-call logs compared as multisets in global cell terms; distinct = (global grid, layout, periodicity, kind, threads)")
+                       "the per-call logs compared as multisets in global cell terms; plus untraced stress runs: 2x2x2 .. 3x3x2 subgrids of 2^3 cells, non-uniform periodic / reflective states, 10-20 steps, 4/8/16 threads with seeded scheduling jitter at the atomic operations, final snapshot (density, velocity, pressure of every cell) vs the one-thread run within 1e-11; a hang, crash or difference is a violation; distinct = (global grid, layout, periodicity, kind, threads)")
     if not ok:
         return
     binary = vlib.full_binary()
@@ -423,6 +424,19 @@ def run(ctx):
 def replay(ctx, path):
     obj = json.load(open(path))
     print(json.dumps({k: v for k, v in obj.items() if k not in ("states",)}, indent=1)[:2500])
+    if obj.get("stress"):
+        binary = vlib.full_binary()
+        setup = dict(param=obj["param"], blocks=obj["blocks"], ncell=obj["ncell"], box=obj["box"])
+        s1, ref, log1 = stress_run(binary, setup, 1, None)
+        s2, st, log2 = stress_run(binary, setup, obj["threads"], obj.get("jitter"))
+        print("one thread: %s; %d threads with jitter %s: %s %s" % (s1, obj["threads"], obj.get("jitter"), s2, log2[-200:]))
+        bad = ref is None or st is None
+        if not bad:
+            w, where = stress_compare(ref, st, obj["g"])
+            print("worst relative difference %.3e at %r (tolerance %.1e)" % (w, where, STRESS_TOL))
+            bad = w > STRESS_TOL
+        print("REPRODUCED" if bad else "not reproduced on this run (schedule dependent: repeat, the jitter seed only fixes the delays)")
+        return 1 if bad else 0
     if "states" not in obj:
         print("replay file names a broken obligation, not an input")
         return 1
